@@ -1,21 +1,23 @@
 /-
   Model of healing from an archive (pwr/archive_healer.go) over the abstract filesystem, in the schedule
   where validation completes first and the healer then consumes the wounds in order (the transition-system
-  view of all interleavings is in Model/ValidateTS).
+  view of all interleavings is in Model/HealTS).
+
+  As of the repair of finding F15 (`fix: healing a directory that something else had replaced also heals what
+  lives below it`), `processWound` for a DIR wound that finds something that is not a directory standing at the
+  directory's path removes it, recreates the directory and then calls `healBelow(dirEntry.Path)`, which
+  processes a synthetic wound for every entry of the container below that path: first the directories, then
+  the symlinks, then the files.  `processWound` became recursive for that purpose; so is `healDir` here.
 -/
 import Wharf.Model.TreeValidate
 
 namespace Wharf.Heal
 open Wharf Wharf.FS Wharf.Validate Wharf.TreeValidate
 
-/-- `processWound` for a directory wound. -/
-def healDir (t : Tree) (p : Path) : Except Err Tree :=
-  match lstat t p with
-  | .ok .dir => .ok t
-  | .ok _ => do
-    let t ← remove t p
-    mkdirs t p
-  | .error _ => mkdirs t p
+/-- `processWound`, case `WoundKind_FILE` (archive_healer.go:204-224): `if files[wound.Index] { return nil }` …
+    `files[wound.Index] = true` … `fileIndices <- wound.Index` — append the index unless it is queued already.
+    (The queue doubles as the `files` map of `Do`.) -/
+def enqueue (q : List Nat) (i : Nat) : List Nat := if q.contains i then q else q ++ [i]
 
 /-- `processWound` for a symlink wound. -/
 def healSymlink (t : Tree) (p : Path) (dest : String) : Except Err Tree := do
@@ -35,21 +37,100 @@ def healFile (t : Tree) (p : Path) (data : List Byte) : Except Err Tree := do
     | _ => .ok t
   writeFile t p data
 
+/-! ### `healBelow(dirPath)` (archive_healer.go:99-126)
+
+  `prefix := dirPath + "/"`; an entry is handled iff `strings.HasPrefix(entry.Path, prefix)`, i.e. (paths are
+  clean, slash-separated) iff `dirPath` is a proper prefix of the entry's path component-wise: `isPrefix p q`. -/
+
+/-- First loop of `healBelow` (archive_healer.go:101-108): `for i, d := range container.Dirs`, and for every `d`
+    below `p`, `processWound(&Wound{Kind: WoundKind_DIR, Index: i})` — `dirWound` is that (recursive) call; the
+    first error ends the loop. -/
+def healDirsBelow (dirWound : Tree → List Nat → Path → Except Err (Tree × List Nat)) (p : Path) :
+    List Path → Tree → List Nat → Except Err (Tree × List Nat)
+  | [], t, q => .ok (t, q)
+  | d :: ds, t, q =>
+    if isPrefix p d then
+      match dirWound t q d with
+      | .ok (t', q') => healDirsBelow dirWound p ds t' q'
+      | .error e => .error e
+    else healDirsBelow dirWound p ds t q
+
+/-- Second loop of `healBelow` (archive_healer.go:109-116): `for i, l := range container.Symlinks`, and for every
+    `l` below `p`, `processWound(&Wound{Kind: WoundKind_SYMLINK, Index: i})`. -/
+def healSymlinksBelow (p : Path) : List (Path × String) → Tree → Except Err Tree
+  | [], t => .ok t
+  | (l, dest) :: ls, t =>
+    if isPrefix p l then
+      match healSymlink t l dest with
+      | .ok t' => healSymlinksBelow p ls t'
+      | .error e => .error e
+    else healSymlinksBelow p ls t
+
+/-- Third loop of `healBelow` (archive_healer.go:117-124): `for i, f := range container.Files`, and for every `f`
+    below `p`, `processWound(&Wound{Kind: WoundKind_FILE, Index: i, End: f.Size})` — the file is queued for the
+    healing goroutine unless it is queued already (`enqueue`); no filesystem operation. -/
+def queueFilesBelow (p : Path) : Nat → List (Path × List Byte) → List Nat → List Nat
+  | _, [], q => q
+  | i, (f, _) :: fs, q => queueFilesBelow p (i + 1) fs (if isPrefix p f then enqueue q i else q)
+
+/-- `processWound` for a directory wound (archive_healer.go:135-169), on the tree `t` with the queue `q` of file
+    indices sent to the healing goroutine so far; returns the new tree and the new queue.
+
+    * `os.Lstat(path)` finds a directory: "all good" (142-144).
+    * `os.Lstat(path)` finds something else (145-152): `os.Remove(path)`, `replaced = true`; then
+      `os.MkdirAll(path)` (156); then, NEW with the repair of F15 (161-169), `healBelow(dirEntry.Path)`: the three
+      loops above, the first of which calls `processWound` recursively.
+    * `os.Lstat(path)` fails (whatever the error): `os.MkdirAll(path)` only (156).
+
+    The first argument bounds the depth of the recursion `processWound → healBelow → processWound → …`: every
+    nested call is for a directory strictly below the current one, so a chain of nested calls is a chain of
+    distinct entries of `s.dirs` and `healDepth s = s.dirs.length + 1` is never exhausted (in fact, below a
+    directory that has just been recreated nothing can stand in the way, so the depth never exceeds 2 —
+    `Proofs/HealRestore: healDir_replaced`).  An exhausted bound is reported as an error. -/
+def healDir (s : Signed) : Nat → Tree → List Nat → Path → Except Err (Tree × List Nat)
+  | 0, _, _, _ => .error .eloop
+  | depth + 1, t, q, p =>
+    match lstat t p with
+    | .ok .dir => .ok (t, q)                                   -- 142-144
+    | .ok _ =>
+      match remove t p with                                    -- 147
+      | .error e => .error e
+      | .ok t₁ =>
+        match mkdirs t₁ p with                                 -- 156
+        | .error e => .error e
+        | .ok t₂ =>                                            -- 161-169: healBelow(dirEntry.Path)
+          match healDirsBelow (healDir s depth) p s.dirs t₂ q with      -- 101-108
+          | .error e => .error e
+          | .ok (t₃, q₃) =>
+            match healSymlinksBelow p s.symlinks t₃ with                -- 109-116
+            | .error e => .error e
+            | .ok t₄ => .ok (t₄, queueFilesBelow p 0 s.files q₃)        -- 117-124
+    | .error _ =>
+      match mkdirs t p with                                    -- 156
+      | .error e => .error e
+      | .ok t₁ => .ok (t₁, q)
+
+/-- bound on the recursion depth of `healDir`, see there -/
+def healDepth (s : Signed) : Nat := s.dirs.length + 1
+
 /-- Process the wounds in order; file wounds queue the file once; queued files are rewritten afterwards (the
-    healing goroutine drains the queue in order). -/
+    healing goroutine drains the queue in order).  A directory wound may queue files as well (`healDir`). -/
 def processWounds (s : Signed) : List Wound → Tree → List Nat → Except Err (Tree × List Nat)
   | [], t, q => .ok (t, q)
   | w :: ws, t, q =>
     match w.kind with
     | .dir =>
       match s.dirs[w.index]? with
-      | some p => do let t ← healDir t p; processWounds s ws t q
+      | some p =>
+        match healDir s (healDepth s) t q p with
+        | .ok (t', q') => processWounds s ws t' q'
+        | .error e => .error e
       | none => .error .einval
     | .symlink =>
       match s.symlinks[w.index]? with
       | some (p, d) => do let t ← healSymlink t p d; processWounds s ws t q
       | none => .error .einval
-    | .file => processWounds s ws t (if q.contains w.index then q else q ++ [w.index])
+    | .file => processWounds s ws t (enqueue q w.index)
     | .closedFile => processWounds s ws t q
 
 def healFiles (s : Signed) : List Nat → Tree → Except Err Tree
